@@ -108,15 +108,20 @@ structure SnapCfg where
   readClamp : Bool
   /-- `oracle.readTs`: `nextTxnTs.Load() - readTsOff` (source: 1). -/
   readTsOff : Nat
+  /-- `oracle.initCommitState(committed)` (reopen of a non-empty DB) seeds `txnMark.doneUntil` and
+      `txnMark.lastIndex` with `committed + seedOff` (source: 0 — the recovered version itself, so that
+      the first commit timestamp of the session, `committed + 1`, is NOT done yet). -/
+  seedOff : Nat
   deriving DecidableEq, Repr
 
 def SnapCfg.good : SnapCfg :=
   { wm := WM.WMCfg.good, commitLocked := true, doneAfterApply := true, readWaits := true, readClamp := true,
-    readTsOff := 1 }
+    readTsOff := 1, seedOff := 0 }
 
 /-- what `C05_stable_reads` needs; the formula of `readTs` is NOT part of it -/
 def SnapCfg.Good (c : SnapCfg) : Prop :=
-  c.wm.countsFirst = true ∧ c.commitLocked = true ∧ c.doneAfterApply = true ∧ c.readWaits = true
+  c.wm.countsFirst = true ∧ c.commitLocked = true ∧ c.doneAfterApply = true ∧ c.readWaits = true ∧
+  c.seedOff = 0
 instance SnapCfg.decGood (c : SnapCfg) : Decidable c.Good := by unfold SnapCfg.Good; exact inferInstance
 
 inductive Mark where
@@ -356,10 +361,27 @@ def step (c : SnapCfg) (s : St) : Act → Option St
     | some t => stepThr c s tid t
     | none => none
 
+/-- a watermark after `SetDoneUntil(n)` / `SetLastIndex(l)` on a fresh structure -/
+def seededWM (n l : Nat) : WM.St := { WM.initSt with doneUntil := n, lastIndex := l }
+
+/-- The oracle after `Open`: `db.orc.initCommitState(lsm.MaxVersion())`.  `n` = the newest version
+recovered from disk (0 = empty database: `initCommitState` returns at once), `store` = the
+recovered versions.  `nextTxnTs = n+1`, `readMark.doneUntil = n`, `txnMark.doneUntil = lastIndex =
+n + seedOff`, `lastCleanupTs = n`; no transaction exists, `committedTxns` is empty. -/
+def seededSt (c : SnapCfg) (n : Nat) (store : List Entry) : St :=
+  { tm := if n = 0 then WM.initSt else seededWM (n + c.seedOff) (n + c.seedOff),
+    rm := seededWM n 0, nextTs := n + 1, locked := none, committed := [], lastCleanup := n,
+    store := store, thr := fun _ => none, wfresh := 0 }
+
+/-- a fresh database -/
 def initSt : St :=
   { tm := WM.initSt, rm := WM.initSt, nextTs := 1, locked := none, committed := [], lastCleanup := 0,
     store := [], thr := fun _ => none, wfresh := 0 }
 
-def sys (c : SnapCfg) : Sys St Act := { init := fun s => s = initSt, step := step c }
+/-- Initial states: a database opened fresh OR reopened with any recovered content whose versions
+do not exceed the recovered maximum `n` (that `Open` recovers exactly what was acknowledged is
+C09/C10's subject). -/
+def sys (c : SnapCfg) : Sys St Act :=
+  { init := fun s => ∃ n store, s = seededSt c n store ∧ ∀ e, e ∈ store → e.ts ≤ n, step := step c }
 
 end NoKV.Snap
